@@ -61,16 +61,16 @@ RULE = ("parts: nc = direct normalize_chunks calls (shape incl. 0-d, length 0/1 
 ASSUMPTIONS = ["NumPy holds the reference values", "dask.utils.parse_bytes turns '1KiB' into 1024",
                "sync scheduler (threads for a tenth of the rechunk cases)"]
 BUDGET = {"quick": 60, "thorough": 540}
-FLOORS = {"quick": {"evaluations": 4000, "distinct_nontrivial": 2500,
-                    "counters": {"contract_evals": 6000, "contract_auto_limit_checked": 1200, "contract_internal_calls": 2500,
-                                 "rechunk_compared": 1200, "multistage_plans": 100, "block_shapes_checked": 1000,
-                                 "p2p_clear_error": 20},
-                    "max_skipped_fraction": 0.4},
-          "thorough": {"evaluations": 60000, "distinct_nontrivial": 35000,
-                       "counters": {"contract_evals": 90000, "contract_auto_limit_checked": 18000,
-                                    "contract_internal_calls": 40000, "rechunk_compared": 20000, "multistage_plans": 1500,
-                                    "block_shapes_checked": 15000, "p2p_clear_error": 300},
-                       "max_skipped_fraction": 0.4}}
+FLOORS = {"quick": {"evaluations": 5500, "distinct_nontrivial": 3500,
+                    "counters": {"contract_evals": 13000, "contract_auto_limit_checked": 1000, "contract_internal_calls": 11000,
+                                 "rechunk_compared": 1800, "multistage_plans": 250, "block_shapes_checked": 1800,
+                                 "p2p_clear_error": 400},
+                    "sets": {"plan_stage_counts": 2}, "max_skipped_fraction": 0.3},
+          "thorough": {"evaluations": 60000, "distinct_nontrivial": 38000,
+                       "counters": {"contract_evals": 140000, "contract_auto_limit_checked": 12000,
+                                    "contract_internal_calls": 110000, "rechunk_compared": 18000, "multistage_plans": 2600,
+                                    "block_shapes_checked": 17000, "p2p_clear_error": 4400},
+                       "sets": {"plan_stage_counts": 2}, "max_skipped_fraction": 0.3}}
 EXHAUSTIVE_SPACE = {"quick": "rechunk: all (source, target) chunking pairs of shape (5,) (16x16) and of shape (3,2) (8x8), method tasks",
                     "thorough": "rechunk: all (source, target) chunking pairs of shapes (5,), (3,2) and (4,3) (32x32), method tasks"}
 CLAIM = ("Every call of the real normalize_chunks made in the check's processes (direct generator and internal callers of "
